@@ -134,5 +134,53 @@ theorem loop_eq (r : Run α) (ff : Flags) (sf : Nat) (maxRange minStep : α) (fu
   conv => lhs; unfold loop
   rfl
 
+/-- the loop state `_integrate` enters its loop with (statements before the `while`, executed symbolically) is the model's -/
+theorem loop_init_eq (r : Run α) (be rs ts : α) (ff : Flags) (hmax : r.maxWindDist = cMaxWindDistanceFeet) :
+    Src.loop_init r be rs ts ff =
+      ⟨initialState r be, WindSock.init r.winds r.maxWindDist,
+       (TFilter.init ff rs (initialState r be).pos (initialState r be).vel ts).setupSeenZero (initialState r be).pos.y be r.proj.lookAngle,
+       [], 0.0, 0.0, 0.0, r.muzzleVelocity, (initialState r be).pos.x⟩ := by
+  have hinit : (WindSock.init r.winds (cMaxWindDistanceFeet : α)).maxDist = cMaxWindDistanceFeet := by
+    unfold WindSock.init
+    cases h : r.winds[0]? <;> simp only [h]
+  unfold Src.loop_init
+  simp only [eta_flt, eta_vec, SrcFilter.init_eq, SrcFilter.setup_seen_zero_eq, BC.Props.C12.C12_src_sock_init, hmax]
+  have hws : ({ winds := (WindSock.init r.winds (cMaxWindDistanceFeet : α)).winds,
+                current := (WindSock.init r.winds (cMaxWindDistanceFeet : α)).current,
+                nextRange := (WindSock.init r.winds (cMaxWindDistanceFeet : α)).nextRange,
+                vec := (WindSock.init r.winds (cMaxWindDistanceFeet : α)).vec,
+                maxDist := cMaxWindDistanceFeet } : WindSock α) = WindSock.init r.winds cMaxWindDistanceFeet := by
+    generalize WindSock.init r.winds (cMaxWindDistanceFeet : α) = W at hinit ⊢
+    cases W
+    simp only at hinit
+    rw [hinit]
+  rw [hws]
+  rfl
+
+/-- `_integrate` as a whole: initial loop state, the `while` loop, and the row appended when fewer than two rows were recorded
+    (`C05_src_row`: the appended row is the source's, where `velocity / mach` does not divide by zero) -/
+theorem integrate_eq (r : Run α) (be maxRange rs : α) (ff : Flags) (ts : α) (fuel sf : Nat)
+    (hmax : r.maxWindDist = cMaxWindDistanceFeet) :
+    integrate r be maxRange rs ff ts fuel sf =
+      match loop r ff sf (maxRange + Src.min_step r.cfg.calcStep rs) maxRange fuel (Src.loop_init r be rs ts ff) with
+      | .error e => .error e
+      | .ok l =>
+        match l.rows with
+        | _ :: _ :: _ => .ok l.rows.reverse
+        | rows =>
+          match mkRow r l.s.time l.s.pos l.s.vel l.speed l.mach l.density l.drag fNONE with
+          | some row => .ok (row :: rows).reverse
+          | none => .error .zeroDiv := by
+  rw [loop_init_eq r be rs ts ff hmax]
+  rfl
+
+/-- that appended row is the one the source builds -/
+theorem final_row_eq (r : Run α) (l : LoopSt α) (hm : nz l.mach = true) :
+    mkRow r l.s.time l.s.pos l.s.vel l.speed l.mach l.density l.drag fNONE = some (Src.final_row r l) := by
+  have hrow := BC.Props.C05.C05_src_row l.s.time l.s.pos l.s.vel l.speed l.mach (spinDrift r.proj l.s.time) r.proj.lookAngle
+    l.density l.drag r.proj.weight fNONE hm
+  simp only [mkRow, hrow]
+  rfl
+
 end
 end BC.Lemmas.SrcLoop
